@@ -237,6 +237,12 @@ class JSONSerializer(AbstractIncrementalPacketSerializer[Any, Any]):
             if self.debug:
                 raise DeserializeError(msg, error_info={"document": document}) from exc
             raise DeserializeError(msg) from exc
+        except ValueError as exc:
+            # e.g. an integer literal exceeding the interpreter's limit for integer string conversion
+            msg = f"JSON decode error: {exc}"
+            if self.debug:
+                raise DeserializeError(msg, error_info={"document": document}) from exc
+            raise DeserializeError(msg) from exc
         return packet
 
     @final
@@ -306,6 +312,12 @@ class JSONSerializer(AbstractIncrementalPacketSerializer[Any, Any]):
             raise IncrementalDeserializeError(msg, remaining_data) from exc
         except RecursionError as exc:
             msg = "JSON decode error: maximum nesting depth exceeded"
+            if self.debug:
+                raise IncrementalDeserializeError(msg, remaining_data=remaining_data, error_info={"document": document}) from exc
+            raise IncrementalDeserializeError(msg, remaining_data) from exc
+        except ValueError as exc:
+            # e.g. an integer literal exceeding the interpreter's limit for integer string conversion
+            msg = f"JSON decode error: {exc}"
             if self.debug:
                 raise IncrementalDeserializeError(msg, remaining_data=remaining_data, error_info={"document": document}) from exc
             raise IncrementalDeserializeError(msg, remaining_data) from exc
